@@ -193,7 +193,7 @@ def gen_case(rng: random.Random, kind: str) -> dict:
     if use_sh:
         req = rng.random() < 0.3
         defs.append(("sh", "sheet", "" if req else "other"))
-        if kind == "probe" and rng.random() < 0.5:
+        if kind == "probe" and rng.random() < (0.7 if use_items else 0.4):
             given.append("data")
             sheet_self = True
         else:
@@ -286,7 +286,7 @@ def gen_case(rng: random.Random, kind: str) -> dict:
     if has_insert:
         t.append({"row_id": "tb", "type": "insert_as_block", "from": frm(last), "message_text": "blk", "data_sheet": "other",
                   "data_row_id": "{{oid}}" if use_oid else "o1",
-                  "template_arguments": rng.choice(["{{word}}", "{{word}}", ""])})
+                  "template_arguments": rng.choice(["{{word}}", "{{word if word != 'alpha' else ''}}", "{{word if word != 'alpha' else ''}}", ""])})
         last = "tb"
         feats.add("insert_as_block")
     if rng.random() < 0.5:
@@ -305,7 +305,7 @@ def gen_case(rng: random.Random, kind: str) -> dict:
     # ---- probes / faults
     probe = None
     if kind == "probe":
-        choices = ["mutate"] if (sheet_self and use_items) else []
+        choices = ["mutate"] * 4 if (sheet_self and use_items) else []
         if loop_var_after:
             choices += ["loop_var", "loop_var"]
         if has_insert:
@@ -367,7 +367,20 @@ def gen_case(rng: random.Random, kind: str) -> dict:
     base.update(extra_sheets)
     bulk = {"type": "create_flow", "sheet_name": "tmpl", "data_sheet": "data", "data_row_id": "", "new_name": new_name,
             "template_arguments": args_cell(given)}
-    return {"base": base, "head": head_rows, "pre": pre_rows, "post": post_rows, "bulk": bulk, "ids": ids,
+    # what the property's own words say the first message is: data field, then each declared argument
+    # bound positionally, a blank / absent one taking its default (only when nothing is wrong with the arguments)
+    expect_first = None
+    if kind != "malformed":
+        expect_first = {}
+        for row in data_rows:
+            parts = ["T", row["word"]]
+            for k, d in enumerate(defs):
+                if d[0] in scope:
+                    parts.append(given[k] if k < len(given) and given[k] != "" else d[2])
+            if use_count:
+                parts.append(str(int(row["count:int"])))
+            expect_first[row["ID"]] = " ".join(parts)
+    return {"base": base, "head": head_rows, "pre": pre_rows, "post": post_rows, "bulk": bulk, "ids": ids, "expect_first": expect_first,
             "name": new_name or "tmpl", "features": sorted(feats), "kind": kind, "probe": probe, "fault": fault,
             "given": given, "defs": [list(d) for d in defs]}
 
@@ -527,6 +540,15 @@ def check_case(case: dict, drv, rng: random.Random | None = None, perm=None, wan
             else:
                 problems.append((f"instance {nm!r}: bulk and {label} behave differently",
                                  {"distinguishing_choice_sequence": ans.get("path"), "bulk_trace": ans.get("traceA"), "other_trace": ans.get("traceB")}))
+    # -- (iv) arguments: the first message shows the data field and every text argument (positional / default)
+    if case.get("expect_first"):
+        for nm in expected_names:
+            i = ids[expected_names.index(nm)]
+            for f in fa.get(nm, [])[:1]:
+                texts = [a.get("text") for nd in f["nodes"][:1] for a in nd.get("actions", [])[:1]]
+                if texts != [case["expect_first"][i]]:
+                    problems.append((f"instance {nm!r}: arguments are not bound positionally with defaults for blank ones (first message)",
+                                     {"expected": case["expect_first"][i], "got": texts, "definitions": case["defs"], "arguments": case["given"]}))
     # -- (iii) permuted: same set of names
     if Bp.ok and B.ok and sorted(f["name"] for f in Bp.doc["flows"]) != sorted(f["name"] for f in B.doc["flows"]):
         problems.append(("permuting the single rows changes the set of flows", {"order": perm}))
@@ -852,7 +874,7 @@ def run(ck: core.Check):
         "uuid threading between instances is compared on the real code only (canonical renaming per flow and per container)",
     ]
     drv = core.Driver()
-    n_total = 480 if quick else 8000
+    n_total = 320 if quick else 6400
     nshards = par.NPROC * (1 if quick else 4)
     kinds = ["valid"] * 6 + ["probe"] * 3 + ["malformed"] * 1
     jobs = [(ck.rng.randrange(1 << 60), max(1, n_total // nshards), kinds) for _ in range(nshards)]
